@@ -130,4 +130,156 @@ theorem resetTail_refines [DecidableEq α] (cfg : Cfg) {b : LB α} {q : Q α} (h
         simp at hi; subst hi
         simp
 
+/-! ### book / bookAck -/
+
+/-- a fresh node is empty; it has room for `size` bytes -/
+theorem newNode_fresh (cfg : Cfg) (size : Nat) :
+    (newNode cfg size : Node α).buf = [] ∧ (newNode cfg size : Node α).off = 0 ∧
+    (newNode cfg size : Node α).pend = [] ∧ (newNode cfg size : Node α).malloc = 0 ∧
+    (0 < size → size ≤ (newNode cfg size : Node α).cap) := by
+  by_cases h : size = 0
+  · subst h; rw [newNode_zero]; simp
+  · obtain ⟨n1, n2, n3, n4, _, n6⟩ := newNode_pos (α := α) cfg size (by omega)
+    exact ⟨n1, n2, n4, n3, fun _ => n6⟩
+
+/-- linking an empty node behind the write node and making it the write node -/
+theorem Shape.push {nodes : List (Node α)} {r f w app} (h : Shape nodes r f w false app) (nn : Node α)
+    (n1 : nn.buf = []) (n2 : nn.off = 0) (n3 : nn.pend = []) (n4 : nn.malloc = 0) :
+    Shape (nodes.take (w + 1) ++ [nn]) r f (w + 1) false app ∧
+    absL ((nodes.take (w + 1) ++ [nn]).drop r) = absL (nodes.drop r) ∧
+    (nodes.take (w + 1) ++ [nn])[w + 1]? = some nn := by
+  obtain ⟨hfw, hwl⟩ := h.wr rfl
+  have hr := h.r_le_f
+  have hlen : (nodes.take (w + 1)).length = w + 1 := by simp; omega
+  refine ⟨h.cut_append [nn] (by simp) id ?_, ?_, ?_⟩
+  · intro j y hj
+    have : j = 0 := by
+      rcases List.getElem?_eq_some_iff.1 hj with ⟨hh, _⟩; simpa using hh
+    subst this
+    simp at hj; subst hj
+    exact NodeInv.of_empty (by rw [n1, n2]; rfl) n3 (by rw [n1, n4]; rfl) (by omega)
+  · rw [List.drop_append_of_le_length (by omega), absL_append, h.absL_take_w]
+    simp [Node.abs, Node.readable, n1, n3]
+  · rw [List.getElem?_append_right (by omega), hlen]; simp
+
+/-- `bookAck(len d')` on the write node of which `l ≥ len d'` bytes were booked, when nothing is pending -/
+theorem bookAck_core (b1 : LB α) (wn : Node α) (l : Nat) (d' : List α)
+    (hsh : Shape b1.nodes b1.r b1.f b1.w false false)
+    (hpn : ∀ (i : Nat) (nd : Node α), b1.nodes[i]? = some nd → nd.pend = [])
+    (hwn : b1.nodes[b1.w]? = some wn) (hcap : wn.malloc + l ≤ wn.cap) (hd' : d'.length ≤ l) :
+    ∃ b' r, ({ b1 with nodes := b1.nodes.set b1.w { wn with malloc := wn.malloc + l } } : LB α).bookAck d'
+        = some (b', r) ∧
+      absL (b'.nodes.drop b'.r) = absL (b1.nodes.drop b1.r) ++ d'.map (·, true) ∧
+      b'.length = b1.length + d'.length ∧ b'.mallocSize = b1.mallocSize ∧ b'.cachePeek = b1.cachePeek ∧
+      Shape b'.nodes b'.r b'.f b'.w false false := by
+  obtain ⟨hfw, hwl⟩ := hsh.wr rfl
+  have hrf := hsh.r_le_f
+  have hn := hsh.node _ wn hwn
+  obtain ⟨a1, a2, _⟩ := hn.2.2.2.1 rfl
+  have hp := hpn _ _ hwn
+  rw [hp] at a1
+  simp only [List.length_nil, Nat.add_zero] at a1
+  unfold LB.bookAck
+  simp only [List.getElem?_set_self hwl]
+  have hc : ¬ d'.length + wn.buf.length > wn.cap := by omega
+  simp only [hc, if_false, List.set_set, hp, List.nil_append, List.take_length]
+  refine ⟨_, _, rfl, ?_, rfl, rfl, rfl, ?_⟩
+  · obtain ⟨_, hget⟩ := List.getElem?_eq_some_iff.1 hwn
+    have hd : b1.nodes.drop b1.w = wn :: b1.nodes.drop (b1.w + 1) := by
+      rw [List.drop_eq_getElem_cons hwl, hget]
+    show absL ((b1.nodes.set b1.w _).drop b1.r) = _
+    apply absL_set_tail (by omega) hd (hsh.tail_nil (b1.w + 1) (by omega))
+    simp [Node.abs, Node.readable, hp, List.drop_append_of_le_length hn.1]
+  · show Shape (b1.nodes.set b1.w _) b1.r b1.w b1.w false false
+    refine ⟨by omega, by simp; omega, ?_, fun _ => ⟨Nat.le_refl _, by simpa using hwl⟩, fun h => by cases h⟩
+    intro i nd hi
+    rw [List.getElem?_set] at hi
+    split at hi
+    · cases hi
+      refine ⟨by simp; omega, fun _ => rfl, fun _ hh => by omega,
+        fun _ => ⟨by simp; omega, by simp; omega, fun hh => by omega⟩, fun h => by cases h⟩
+    · have hn' := hsh.node i nd hi
+      obtain ⟨c1, c2, c3⟩ := hn'.2.2.2.1 rfl
+      exact ⟨hn'.1, fun _ => hpn i nd hi, fun _ hh => (c3 hh).1, fun _ => ⟨c1, c2, c3⟩, fun h => by cases h⟩
+
+theorem bookAck_refines [DecidableEq α] (cfg : Cfg) {b : LB α} {q : Q α} (hR : R b q) (bookSize maxSize : Nat)
+    (d : List α) (hC : Contract q (.bookAck bookSize maxSize d) = true) :
+    ∃ b' l, b.step cfg (.bookAck bookSize maxSize d) = some (b', .num (l : Nat)) ∧ l ≤ bookSize ∧
+      (1 ≤ l ∨ bookSize = 0 ∨ maxSize = 0) ∧ R b' (q.received (d.take l)) := by
+  simp only [Contract, Bool.and_eq_true, Bool.not_eq_true', decide_eq_true_eq] at hC
+  obtain ⟨⟨⟨hd, hro⟩, happ⟩, hm0⟩ := hC
+  have hsh := hR.shape hd
+  rw [hro, happ] at hsh
+  have hpn := hsh.pend_nil (hR.no_pending hm0)
+  obtain ⟨hfw, hwl⟩ := hsh.wr rfl
+  obtain ⟨wn, hwn⟩ : ∃ wn, b.nodes[b.w]? = some wn := ⟨_, List.getElem?_eq_getElem hwl⟩
+  have habs : absL (b.nodes.drop b.r) = q.items := hR.abs
+  have f1 : ∀ e : List α, (e.map (·, true)).filter (·.2) = e.map (·, true) :=
+    fun e => List.filter_eq_self.2 (by simp)
+  have f2 : ∀ e : List α, (e.map (·, true)).filter (! ·.2) = [] :=
+    fun e => List.filter_eq_nil_iff.2 (by simp)
+  -- the common end: bookAck on the (possibly new) write node
+  have fin : ∀ (b1 : LB α) (wn1 : Node α) (l : Nat), Shape b1.nodes b1.r b1.f b1.w false false →
+      (∀ (i : Nat) (nd : Node α), b1.nodes[i]? = some nd → nd.pend = []) →
+      b1.nodes[b1.w]? = some wn1 → wn1.malloc + l ≤ wn1.cap →
+      absL (b1.nodes.drop b1.r) = q.items → b1.length = b.length → b1.mallocSize = b.mallocSize →
+      b1.cachePeek = b.cachePeek →
+      ∃ b' r, ({ b1 with nodes := b1.nodes.set b1.w { wn1 with malloc := wn1.malloc + l } } : LB α).bookAck
+          (d.take l) = some (b', r) ∧ R b' (q.received (d.take l)) := by
+    intro b1 wn1 l h1 h2 h3 h4 h5 h6 h7 h8
+    obtain ⟨b', r, e, g1, g2, g3, g4, g5⟩ := bookAck_core b1 wn1 l (d.take l) h1 h2 h3 h4 (by simp; omega)
+    refine ⟨b', r, e, ?_, ?_, ?_, ?_, ?_, hR.flags⟩
+    · show absL (b'.nodes.drop b'.r) = q.items ++ (d.take l).map (·, true)
+      rw [g1, h5]
+    · show b'.length = ((q.items ++ (d.take l).map (·, true)).filter (·.2)).length
+      rw [g2, h6, hR.len, List.filter_append, List.length_append, f1, List.length_map]; rfl
+    · show b'.mallocSize = ((q.items ++ (d.take l).map (·, true)).filter (! ·.2)).length
+      rw [g3, h7, hR.mlen, List.filter_append, List.length_append, f2]; rfl
+    · intro _
+      show Shape b'.nodes b'.r b'.f b'.w q.readOnly q.appSinceFlush
+      rw [hro, happ]; exact g5
+    · intro _ c cp hc
+      rw [g4, h8] at hc
+      exact leadBytes_prefix_append q _ c (hR.cache hd c cp hc)
+  have hn := hsh.node _ wn hwn
+  obtain ⟨a1, a2, _⟩ := hn.2.2.2.1 rfl
+  simp only [LB.step, LB.bookFill, LB.book, hwn]
+  by_cases hl0 : wn.cap - wn.malloc = 0
+  · simp only [hl0, if_true]
+    obtain ⟨n1, n2, n3, n4, n5⟩ := newNode_fresh (α := α) cfg maxSize
+    obtain ⟨p1, p2, p3⟩ := hsh.push (newNode cfg maxSize) n1 n2 n3 n4
+    simp only [p3]
+    generalize hl : (if maxSize > bookSize then bookSize else maxSize) = l
+    have hl1 : l ≤ bookSize := by subst hl; split <;> omega
+    have hl2 : l ≤ maxSize := by subst hl; split <;> omega
+    have hl3 : 1 ≤ l ∨ bookSize = 0 ∨ maxSize = 0 := by subst hl; split <;> omega
+    have hc : ¬ (newNode cfg maxSize : Node α).malloc + l > (newNode cfg maxSize : Node α).cap := by
+      rw [n4]
+      by_cases hm : 0 < maxSize
+      · have := n5 hm; omega
+      · omega
+    simp only [hc, if_false]
+    have hpn' : ∀ (i : Nat) (nd : Node α),
+        (b.nodes.take (b.w + 1) ++ [newNode cfg maxSize])[i]? = some nd → nd.pend = [] := by
+      intro i nd hi
+      rcases List.mem_append.1 (List.mem_of_getElem? hi) with h | h
+      · obtain ⟨j, hj⟩ := List.getElem?_of_mem (List.mem_of_mem_take h)
+        exact hpn j nd hj
+      · simp at h; subst h; exact n3
+    obtain ⟨b', r, e, hR'⟩ := fin { b with nodes := b.nodes.take (b.w + 1) ++ [newNode cfg maxSize], w := b.w + 1 }
+      (newNode cfg maxSize) l p1 hpn' p3 (by omega) (p2.trans habs) rfl rfl rfl
+    dsimp only at e
+    rw [e]
+    exact ⟨b', l, rfl, hl1, hl3, hR'⟩
+  · simp only [hl0, if_false, hwn]
+    generalize hl : (if wn.cap - wn.malloc > bookSize then bookSize else wn.cap - wn.malloc) = l
+    have hl1 : l ≤ bookSize := by subst hl; split <;> omega
+    have hl2 : l ≤ wn.cap - wn.malloc := by subst hl; split <;> omega
+    have hl3 : 1 ≤ l ∨ bookSize = 0 ∨ maxSize = 0 := by subst hl; split <;> omega
+    have hc : ¬ wn.malloc + l > wn.cap := by omega
+    simp only [hc, if_false]
+    obtain ⟨b', r, e, hR'⟩ := fin b wn l hsh hpn hwn (by omega) habs rfl rfl rfl
+    rw [e]
+    exact ⟨b', l, rfl, hl1, hl3, hR'⟩
+
 end Netpoll.Buf
